@@ -608,6 +608,25 @@ func runLint(which string) {
 		}
 	case "L19":
 		sites, hits = montgomeryLimbReads(fns)
+	case "SCAN", "ABS", "ZEROUSE":
+		registerScanProgram(p)
+		re := regexp.MustCompile(os.Getenv("GCV_FUNCS"))
+		for _, fn := range fns {
+			if !re.MatchString(funcKey(fn)) {
+				continue
+			}
+			var n int
+			var h []Finding
+			if which == "SCAN" {
+				n, h = scanLoopBounds(p, fn)
+			} else if which == "ZEROUSE" {
+				n, h = zeroKnownOperands(p, fn)
+			} else {
+				n, h = signDiscipline(p, fn)
+			}
+			sites += n
+			hits = append(hits, h...)
+		}
 	case "GLOBALS":
 		sites, hits = globalWrites(p, NewEffects(p), fns, os.Getenv("GCV_INIT") != "")
 	case "L17":
